@@ -1268,7 +1268,10 @@ impl<'a> ParseState<'a, &'a str> {
             .copulas()
             .into_iter()
             // 是否有任意一个是「环境切片」的开头
-            .any(|copula| env_slice.starts_with_str(copula))
+            // ! `starts_with_str`在「切片是系词的真前缀」时亦返回`true`，故先检验长度
+            .any(|copula| {
+                env_slice.len() >= copula.chars().count() && env_slice.starts_with_str(copula)
+            })
     }
 
     /// 消耗&置入/词项/原子
